@@ -52,8 +52,12 @@ import mujoco_warp as mjw
 from mujoco_warp._src import io as _io
 mjm = mujoco.MjModel.from_xml_string(xml)
 # what the scene needs (ample run), computed with MuJoCo C
-mjd = mujoco.MjData(mjm); mujoco.mj_forward(mjm, mjd)
-need_con, need_efc = max(1, mjd.ncon), max(1, mjd.nefc)
+mjd = mujoco.MjData(mjm)
+try:
+  mujoco.mj_forward(mjm, mjd)
+  need_con, need_efc = max(1, mjd.ncon), max(1, mjd.nefc)
+except mujoco.FatalError:  # the oracle gives up on some pinned flexes (mj_island): sizes by rule of thumb
+  need_con, need_efc = 64, 256
 cap = lambda cls, need: {"neg": -1, "zero": 0, "one": 1, "short1": max(need - 1, 1), "short2": max(need - 2, 1), "half": max(need // 2, 1), "exact": need, "ample": 8 * need + 16}[cls]
 kw = {}
 if c["nvmax"] != "default":
@@ -112,6 +116,42 @@ INVARIANT EmitCfg
   return {"Gen_Accept.tla": mod, "Gen_Accept.cfg": cfg}
 
 
+def featured(ctx):
+  """(config, xml, debug, cachedir) of models that exercise sensors (incl. contact-list sensors), tendons, actuators, equalities, flexes and meshes"""
+  from .. import family
+  from . import c07b, c40
+
+  cachedir = os.path.join(core.VERIF, ".cache", "warp-debug")
+  base = {"sleep": False, "noisland": False, "solver": "Newton", "cone": "pyramidal", "jac": "dense", "broadphase": "nxn", "nworld": 2, "nconmax": "ample", "njmax": "ample", "nvmax": "default"}
+  out = []
+  # the contact-sensor scene of C07 part B with one sensor of every kind
+  sens = ('<contact subtree1="A" geom2="c1" data="found force torque dist pos normal tangent" reduce="mindist" num="3"/><contact site="S0" data="found" num="2"/>'
+          '<contact body1="world" reduce="netforce" data="force torque pos"/><touch site="S1"/><touch site="S2" cutoff="5"/><distance geom1="a1" body2="C" cutoff="1"/>'
+          '<normal body1="B" body2="D" cutoff="1"/><fromto geom1="a2" geom2="d1" cutoff="1"/><accelerometer site="S3"/><force site="S4"/><torque site="S0"/>')
+  for cone, bp in (("pyramidal", "nxn"), ("elliptic", "sap_tile")) if not ctx.quick else (("elliptic", "nxn"),):
+    out.append((dict(base, scene=f"sensors:{cone}", cone=cone, broadphase=bp), c07b.scene_xml(sens, {"cone": cone}), True, cachedir))
+  if ctx.quick:
+    return out
+  # rich ModelFamily configurations (TLC-sampled in C01's way) with every feature group
+  recs = family.sample(ctx, 12, seed_off=17, maxbody=5, joints=("free", "ball", "hinge", "slide", "hinge2", "ballslide", "weld"), geoms=("sphere", "capsule", "box", "ellipsoid", "cylinder"),
+                       feats=("floor", "contacts", "jlimit", "tlimit", "frictionloss", "eq_connect", "eq_weld", "eq_joint", "tendon_fixed", "tendon_spatial", "wrap", "act_motor", "act_position",
+                              "act_filter", "act_tendon", "sens_pos", "sens_vel", "sens_acc", "sens_site", "site", "camlight", "spring", "damper", "gravcomp", "fluid", "fluid_ellipsoid", "applied"),
+                       maxfeat=12)
+  for i, rec in enumerate(recs[:8]):
+    b = family.build(rec, ctx.seed)
+    jac = ["dense", "sparse"][i % 2]
+    out.append((dict(base, scene=f"family:{i}", jac=jac, cone=["pyramidal", "elliptic"][(i // 2) % 2], broadphase=["nxn", "sap_tile", "sap_segmented"][i % 3]),
+                b.xml.replace('jacobian="auto"', f'jacobian="{jac}"'), True, cachedir))
+  # flex configurations accepted by put_model (plane obstacle, rider with sensors, crossing rope)
+  flexcfg = {"dim": 2, "size": 2, "dof": "full", "eq": "true", "young": False, "eldamp": False, "e2d": "none", "edgedamp": True, "edgestiff": False, "pin": "one", "selfcollide": "none",
+             "internal": False, "obstacle": "plane", "condim": 3, "margin": False, "cone": "pyramidal", "jacobian": "dense", "second": "cross", "nworld": 2, "state": "small", "rider": True}
+  for i, upd in enumerate(({}, {"dim": 1, "size": 3, "selfcollide": "auto", "jacobian": "sparse"}, {"dim": 3, "size": 1, "dof": "trilinear", "eq": "strain", "second": "none", "cone": "elliptic"},
+                           {"dim": 3, "size": 1, "young": True, "eq": "false", "obstacle": "sphere", "second": "far"})):
+    c = dict(flexcfg, **upd)
+    out.append((dict(base, scene=f"flex:{i}", jac=c["jacobian"], cone=c["cone"]), c40.scene_xml(c, np.random.default_rng(i)), True, cachedir))
+  return out
+
+
 def run(ctx: core.Ctx):
   import concurrent.futures as cf
 
@@ -162,7 +202,17 @@ def run(ctx: core.Ctx):
     ctx.case({"cfg": rec["c"], "debug_build": True, "got": got}, key=("debug", rec["c"]))
     if got != "runs":
       ctx.violation({"what": "bounds-checked debug build aborted", "scene": rec["c"]["scene"]}, detail, {"cfg": rec["c"], "debug": True})
-  ctx.traces_validated = len(items) + len(dbg)
+  # feature-rich models on the debug build: the four scenes above have no sensors, tendons, actuators, flexes or meshes
+  feat = featured(ctx)
+  fres = [_run_one(feat[0])] if feat else []
+  with cf.ThreadPoolExecutor(max_workers=4) as ex:
+    fres += list(ex.map(_run_one, feat[1:]))
+  for (c, xml, _dbg, _cd), (got, detail) in zip(feat, fres):
+    ctx.case({"featured": c["scene"], "debug_build": True, "got": got}, key=("featured", c["scene"], c["broadphase"]))
+    if got != "runs":
+      ctx.violation({"what": "bounds-checked debug build aborted", "scene": c["scene"].split(":")[0]}, detail, {"cfg": c, "debug": True, "xml": xml})
+  ctx.extra["featured_debug_build_runs"] = len(feat)
+  ctx.traces_validated = len(items) + len(dbg) + len(feat)
   ctx.extra["debug_build_runs"] = len(dbg)
   ctx.assumptions += ["only what the scenarios execute is covered; sub-thread GPU interleavings are covered by the allocator models only",
                       "debug build = wp.config.mode 'debug' with its own kernel cache: array index assertions abort the process"]
@@ -175,7 +225,8 @@ def replay(ctx, scen):
 META = {
   "text": "Accept.tla states the only two admissible outcomes of a configuration (rejected by validation, or runs) over flags, solvers, "
           "broadphases, world counts and capacity classes; every TLC-emitted configuration is executed in a crash-isolated process and must "
-          "end with that outcome (any abort, signal or foreign exception is a violation), a subset on Warp's bounds-checked debug build. The "
+          "end with that outcome (any abort, signal or foreign exception is a violation), a subset on Warp's bounds-checked debug build, where also feature-rich models run "
+          "(the contact-sensor scene of C07, TLC-sampled ModelFamily configurations with tendons / actuators / equalities / sensors / fluid, flex configurations of C40). The "
           "index-in-range invariants of the modelled allocators, island DFS and SAP decoding are re-checked by TLC.",
   "note": "exploration over TLC-generated configurations; memory safety only as far as the debug build's index assertions and the modelled kernels reach",
   "technique": "TLA+ acceptance/outcome table (Accept.tla) + index-range invariants of RowAlloc/ContactBuf/Island/Sap checked by TLC; spec->code replay in crash-isolated processes incl. Warp debug build",
